@@ -17,3 +17,9 @@ def run(ctx):
     restated_clause(ctx, "C07-d", tb.path, "generalized-dod", lambda: gdod_clause(ctx, "C07-d", tb))
     restated_clause(ctx, "C07-d", fg.path, "graph-dod", lambda: graph_dod_clause(ctx, "C07-d"))
     run_c03_loops(ctx, "C07-d", soft=True)
+    # which subsets count as mass-momentum spanning decides where ω loses the −ω(G) term and where V_tr is picked up
+    from .kernels import run_c03_flags
+    try:
+        run_c03_flags(ctx, "C07-d")
+    except RoleLost as e:
+        ctx.note("C07-d: spanning definition skipped — %s" % e)
